@@ -21,19 +21,34 @@ CONFIG = dict(
                "unknown answer registers nothing, an answer is consumed at most once, a successful answer registers exactly the scene fixed "
                "at allocation on the smallest free line; the keeper spawns only below the required number of confirmed lines; the handler places exactly like SpawnScene, tells "
                "its client ok only through the answer that registers the scene, and stays silent (client never answered) exactly when no "
-               "service is working. Witness "
+               "service is working. (3) Node level (Model/SceneMNode.lean), for EVERY history of system events, addPublicScene calls, whole keeper rounds "
+               "(PublicScenes.Update over the whole table, the table and the service map visited in any order) and servings of the service's timer queue "
+               "(the three 1 s timers of utils/timer as the real Start functions arm them: keep-alive check from SceneServiceMgr.Start, keeper from "
+               "OnServiceRefresh -> CheckToSpawnPublicScenes -> PublicScenes.Start (idempotent), request-expiry check of actorex/service from the first request; "
+               "a timer runs once however late the queue is served and is re-armed a full period after it ran), for both values of the two configuration "
+               "switches Init reads: the node history is a system history (node_history_is_system_history), so all of (1) and (2) applies with no hypothesis, "
+               "placement included when the map orders are orders of the maps and the queue is in firing order (node_placement_over_histories); the public-"
+               "scene table has one entry per configuration and addPublicScene keeps the first registration; the keeper's timer is armed exactly when some "
+               "scene service has reported; a whole round registers nothing, touches no service and sends at most one request per public scene, only for "
+               "those below their required number, with fresh ids; a request unanswered for more than 30 s is completed as a failed answer: it registers "
+               "nothing and is no longer in flight; after a serving nothing is left on the queue and a second serving at the same instant is a no-op. "
+               "FindIdleService's literal loop (empty string = none yet) equals the model's placement function whenever no service is registered under the empty id. Witness "
                "theorems show what is NOT guaranteed: a late successful answer registers a scene on a service already declared lost; the "
                "keeper overshoots with answers outstanding. The model is tied to the Go code on every run by executing both on generated "
                "histories (configuration ids from five families incl. ids that coincide with line numbers / service numbers / scene ids, "
-               "4 services, virtual keep-alive clock, real SpawnScene/PublicScenes.Update/handler Entry.AllocScene + waterfall/app.Request/handleResponse) and comparing the "
+               "4 services, virtual keep-alive clock, real SpawnScene/PublicScenes.Update/handler Entry.AllocScene + waterfall/app.Request/handleResponse, the real "
+               "PublicScenes.Init table and addPublicScene, the real timer.Mgr queue served with timer.Mgr.Do so that the timers registered by the real "
+               "SceneServiceMgr.Start / PublicScenes.Start / actorex Service.tryStartCheckTimer fire and re-arm themselves, the real checkExpired) and comparing the "
                "full sorted state dump after every event; the property predicate (scenes <-> lines, smallest free line, exact removal, placement, and: the periodic check declares a "
-               "service lost only after 12 s without a refresh, the keeper asks only below need, a client is told ok only for a live scene) "
+               "service lost only after 12 s without a refresh, the keeper asks only below need - also per entry of a whole round, at most once per entry -, a client is told ok only for a live scene, "
+               "a request is given up only after more than 30 s) "
                "is evaluated on the implementation's own dumps.",
     level_note="Trusted: Lean kernel; harness/driver line protocol; the overlay shim (read-only accessors + direct calls of onUpdate/"
-               "onServiceLost/World.OnServiceLost/PublicScenes.Update with a one-entry table); float32 busy weight abstracted to min(n,5000) "
+               "onServiceLost/World.OnServiceLost/PublicScenes.Update/addPublicScene; the `keeper` op replaces the table by one entry, the `update`/`timers` ops use the table as Init and addPublicScene built it); float32 busy weight abstracted to min(n,5000) "
                "(validated on every adjacent pair 0..5101 and sampled pairs each run); Go map iteration and math/rand as arbitrary choices "
                "(theorems quantify over every visiting order / draw; the driver accepts a SpawnScene/keeper result iff the model produces "
-               "it for SOME visiting order). The theorems are about the model; the differential run ties it to the code on sampled histories only.",
+               "it for SOME visiting order; a whole round / a serving of the timer queue iff the model produces result and state for SOME order of the table, "
+               "SOME choice among the least busy per entry and SOME queue order compatible with the firing times; the id counter is part of the compared dump). The theorems are about the model; the differential run ties it to the code on sampled histories only.",
     lean_targets=["Cell2v.Props.C19", "modeld_c19"],
     driver="modeld_c19",
     driver_root="Cell2v.Driver.C19",
@@ -45,7 +60,10 @@ CONFIG = dict(
                        "sysInv_reachable", "sys_history_admissible", "sys_ids_disciplined", "sys_request_none_iff_no_scene",
                        "placement_over_histories", "spawn_registers_nothing", "failed_reply_registers_nothing", "reply_ok_registers_exactly",
                        "keeper_spawns_only_below_need", "handler_places_like_spawn", "handler_ack_only_for_registered_scene",
-                       "keeper_overshoots_with_replies_outstanding", "late_confirm_registers_on_lost_service"],
+                       "keeper_overshoots_with_replies_outstanding", "late_confirm_registers_on_lost_service",
+                       "node_history_is_system_history", "node_placement_over_histories", "public_table_keys_unique", "add_public_first_wins",
+                       "init_table", "keeper_starts_with_first_service", "keeper_round_asks_only_below_need", "timers_serve_queue_once",
+                       "request_timeout_registers_nothing", "findIdleGo_eq_findIdle", "empty_service_id_breaks_placement"],
     harness_pkg="./c19",
     go_flags=["-overlay=/verif/harness/c19/overlay/overlay.json"],
     mode="accept",
@@ -64,14 +82,17 @@ CONFIG = dict(
          "3000 ms threshold; periodic checks; silences of 1-5 rounds (the 4th declares the loss); manager- and world-level losses, repeated; "
          "requests for populated / empty / unknown configurations; the keeper's creation path through the real SpawnScene (app.Request over a generated cluster view: request sent and later answered ok / with an error / never - also after the service was declared lost -, or failing at once when the chosen service is not routable); the remote AllocScene handler called directly (real Entry.AllocScene on the real scenem Service object, its waterfall tasks "
          "run from the service's scheduler; the client's answer is observed: none / error at once / ok or error with the reply); rounds of the public-scene keeper "
-         "(the real PublicScenes.Update over a one-entry table, required numbers 0-5, with and without answers outstanding); busy-weight comparisons (all adjacent pairs 0..5101 exhaustively); 1 in 8 cases "
-         "is malformed (create-success for a live id: compared with the model, not judged by the property). A case is non-trivial when scenes exist "
+         "(the real PublicScenes.Update over a one-entry table, required numbers 0-5, with and without answers outstanding); the service's loop serving its timer queue (real timers: nothing due / keep-alive check / keeper round over the whole table / request expiry, alone and together, "
+         "also second by second for 1-14 s so that the real timers declare a loss after 12 s of silence and give up a request after 30 s); whole keeper rounds called directly; "
+         "addPublicScene for new and for existing configurations (table kept to at most 4 entries); busy-weight comparisons (all adjacent pairs 0..5101 exhaustively); 1 in 8 cases "
+         "is malformed (create-success for a live id: compared with the model, not judged by the property); 1 in 16 cases is preceded by a short case in which a service reports under the empty id (bare placements only, likewise not judged). A case is non-trivial when scenes exist "
          "or a result other than ok is returned; distinct = distinct (op, observation) pairs",
     trusted_base=[
         "Lean 4.33.0 kernel; axioms of every property theorem audited on each run (allowed: propext, Classical.choice, Quot.sound)",
-        "hand-written model lean/Cell2v/Model/SceneM.lean (Mgr and, around it, Sys = manager + requests in flight + cluster view; the driver runs Sys.step/Sys.spawn/Sys.keeper/Sys.reply themselves) tied to the Go code by the acceptance run of this check (harness/c19 + modeld_c19 accept)",
+        "hand-written model lean/Cell2v/Model/SceneM.lean (Mgr and, around it, Sys = manager + requests in flight + cluster view; the driver runs Sys.step/Sys.spawn/Sys.keeper/Sys.reply themselves) and lean/Cell2v/Model/SceneMNode.lean (Node = Sys + public-scene table + the three timers + request deadlines; the driver runs Node.step) tied to the Go code by the acceptance run of this check (harness/c19 + modeld_c19 accept)",
         "scenem Service object built by handler.NewService(); handler Entry.AllocScene called directly; scheduler tasks (waterfall) drained synchronously by the harness",
-        "overlay shim harness/c19/overlay/export_verif.go (package scenem, added at build time, /repo untouched): read-only accessors and direct calls of onUpdate / onServiceLost / World.OnServiceLost / PublicScenes.Update (after replacing the keeper's table by one entry)",
+        "overlay shim harness/c19/overlay/export_verif.go (package scenem, added at build time, /repo untouched): read-only accessors (scenes, lines, stats, id counter, public-scene table, keeper timer id, the two config switches) and direct calls of onUpdate / onServiceLost / World.OnServiceLost / PublicScenes.Update / addPublicScene (the `keeper` op first replaces the keeper's table by one entry)",
+        "utils/timer and time.AfterFunc inside the testing/synctest bubble: the harness plays the service's loop for the timer queue (synctest.Wait, then every queued timer object is handed to the real timer.Mgr.Do); the model's timer semantics (due time, once on the queue, re-armed a period after it ran, same-instant timers in any order) is compared through what fires and what it does, not proved about utils/timer",
         "float32 GetBusyWeight (CPURate is never set) abstracted to the integer key min(n,5000); compared with the real function on every adjacent pair 0..5101 and on sampled pairs up to 2^24-1 in every run",
         "Go map iteration order and math/rand are arbitrary: the theorems quantify over every visiting order / draw, the driver accepts any least-busy working service and any line of the configuration",
         "SpawnScene requests are routed by the real app.Request/route/cluster directory over a generated view (UpdateClusterTopology); the scene service's answer is a ServiceResponse handed to the real Service.handleResponse",
@@ -80,10 +101,10 @@ CONFIG = dict(
     assumptions=[
         "manager-level theorems only: create-success events never name a scene id that is live. Proved (not assumed) for every system history, i.e. when scenes are registered through SpawnScene/the keeper and the reply callback (sys_history_admissible); i.e. when scenes are registered through SpawnScene / the keeper / the AllocScene handler and the reply callback - the only callers of OnSceneCreateSucc in the repository; the generated bare alloc / create events (arbitrary ids, services, duplicates) stay under the hypothesis; uint64 wrap-around of the id counter not modelled",
         "an answer is delivered to the reply callback at most once per request (the request table entry is removed on the first answer: modelled and compared via len(ns.Handlers); the request layer itself is C01)",
-        "the keep-alive check and the keeper are driven by calling the timers' callbacks (onUpdate, PublicScenes.Update) directly; the 1 s timer wiring of Start() / PublicScenes.Start() is not run, and the keeper's table holds one public scene per round (several entries are visited in map order)",
-        "the scenem Service (handler.NewService: NodeService + Mgr) is not spawned as an actor: the AllocScene handler is called as a Go method with a stub actor context instead of through the api dispatcher, tasks posted to the service's scheduler are run by the harness after each op; its Receive is called directly with actor.Started / ServiceResponse and its sends are recorded by a stub actor context; request timeouts (C01) are not driven here, an unanswered request simply stays pending",
+        "the service's run loop (runservice selector goroutine) is not started: the harness serves the timer queue and the scheduler queue itself, between ops (`timers` op; the `tick` / `keeper` / `update` ops still call the callbacks directly); timers of the same due instant are accepted in any order",
+        "the scenem Service (handler.NewService: NodeService + Mgr) is not spawned as an actor: the AllocScene handler is called as a Go method with a stub actor context instead of through the api dispatcher, tasks posted to the service's scheduler are run by the harness after each op; its Receive is called directly with actor.Started / ServiceResponse and its sends are recorded by a stub actor context; request timeouts are driven by the real expiry timer of actorex/service (modelled: deadline = send time + 30 s, checked once a second while requests are in flight); the request layer's own guarantees are C01",
         "scene counts reported by services are non-negative and below 2^24 (a negative count would win every placement)",
-        "service ids are non-empty (FindIdleService uses the empty string for 'none yet'; the model uses an option)",
+        "service ids are non-empty: the placement theorems are about findIdle (an option for 'none yet'); FindIdleService as written (the empty string for 'none yet') is modelled literally as findIdleGo, proved equal to findIdle when no service is registered under the empty id (findIdleGo_eq_findIdle) and compared with the code also when one is (1 case in 16 refreshes a service under the empty id; bare AllocScene decisions only, accepted iff the literal loop gives them for some visiting order; such cases are not judged by the property monitor); that scene services never report an empty id is assumed (witness of what breaks otherwise: empty_service_id_breaks_placement)",
         "scene id 0 is reserved (RandGetScene uses it for 'none'); allocSceneId starts at 1 (proved: no system history produces id 0)",
     ],
 )
